@@ -27,6 +27,7 @@ RULE = (
     "pymysensors layout (sensor_id/type/id, null for empty sketch fields and for the gateway type) and loaded. Enumerated: registries whose file is 1-4 MiB, and the round trip of non-ASCII text in a child process whose locale encoding is ASCII (LANG=C, UTF-8 mode off). Oracle: load never rejects a "
     "file save wrote; deep equality of all listed attributes before save and after load; legacy and native loads are equal. Non-trivial = "
     ">= 1 child with >= 1 value and a non-default attribute, or a boundary payload reached the registry; distinct = distinct case JSON."
+    ' Round 5: load via own path or explicit argument; earlier saves by the same object, file removed in between, repeated saves; an `overlap` kind (second save while the first is in flight, registry grown meanwhile) on the virtual loop.'
 )
 ASSUMPTIONS = [
     "real files in a scratch directory (tmpfs when available), aiofiles and its thread pool unmocked",
